@@ -1,67 +1,42 @@
-// flowgraph - translator for property C19 (trusted; keep small).
+// flowgraph - translator for property C19 (trusted; the edge rules are in rules.go).
 //
 //	flowgraph <repo root> <out FlowGraph.v> <out flowgraph.json>
 //
-// Loads the packages "." , "./telegram" (and everything they import) of the module at <repo root>
+// Loads the packages "." and "./telegram" (and everything they import) of the module at <repo root>
 // with go/packages, builds go/ssa for the whole program and a CHA call graph, and emits the
-// DEPENDENCY graph (edge n -> m: "the value n may be computed from / overwritten with data of m")
-// of the backward slices of the four key-agreement secrets.  Coq re-computes reachability on the
-// emitted graph (Misc/Taint.v); what is trusted here is the construction of nodes and edges.
+// DEPENDENCY graph (edge n -> m: "n is computed from / overwritten with data of m") of the backward
+// slices of the four key-agreement secrets.  Coq re-computes reachability on the emitted graph and
+// decides the property (Misc/Taint.v, Inst/C19i.v); what is trusted here is the construction of nodes
+// and edges.  The slice is built on demand from the four sinks, so only nodes that some secret
+// depends on (plus the math/rand.Seed call sites) are emitted.
 //
 // Expanded code  = functions of packages github.com/xelaj/mtproto/... and github.com/xelaj/go-dry.
-// Everything else is a LEAF, classified by package path:
+// Everything else is a LEAF, classified by import path:
 //
-//	crypto/rand.*                                   -> OS    (functions, methods, the global Reader)
-//	math/rand.*, math/rand/v2.*, any other ".../rand"  -> PRNG  (rand.New, NewSource, Read, Intn, methods ...)
-//	math/rand.Seed call sites (package level Seed)  -> SEED  (node of the call site)
-//	time.Now/Since/Until and methods of time.Time   -> TIME
-//	all other leaves, constants, caller-supplied inputs -> NEUTRAL
+//	crypto/rand.*                                       -> OS    (functions, methods, the global Reader)
+//	math/rand.*, math/rand/v2.*, any other ".../rand"   -> PRNG  (rand.New, NewSource, Read, Intn, methods ...)
+//	call sites of the package-level math/rand.Seed      -> SEED  (the node of the call site)
+//	time.Now/Since/Until and methods of time.Time       -> TIME
+//	all other leaves, constants, caller-supplied inputs, network input -> NEUTRAL
 //
 // A node "math/rand <global source>" (PRNG) is a dependency of every package-level math/rand
-// function and itself depends on every math/rand.Seed call site in expanded code.
+// function and itself depends on every math/rand.Seed call site in expanded code; the Seed sites
+// reachable in the call graph from NewMTProto / telegram.NewClient / package initialisers are listed
+// separately (seed_sites).
 //
-// Nodes: SSA values (parameters, free variables, value instructions, globals), go/defer call sites,
-// one node per struct field "T.F" (field-based heap model: all instances of T merged, fields kept
-// apart), one node per leaf function, four sink nodes "secret:<name>".
+// Sinks (anchors of the secrets; a missing anchor leaves the sink without dependencies, which fails
+// secrets_ok because no OS source reaches it):
 //
-// Edge rules (n depends on ...):
+//	secret:nonce     <- content of field Nonce    of every struct of internal/mtproto/objects into whose
+//	secret:new_nonce <- content of field NewNonce    field client code stores (server-only types are never stored)
+//	secret:dh_b      <- exponent argument of every (*big.Int).Exp call and result 0 of every Return in
+//	                    internal/math.MakeGAB
+//	secret:srp_a     <- content of field GA of telegram/internal/srp.SrpAnswer (A = g^a mod p, the value
+//	                    sent; g and p come from the server, so a is its only source of entropy)
 //
-//	R1 def-use: an instruction depends on all its operands (constants and function constants have no node).
-//	R2 call of expanded callee(s) (static, or resolved by CHA for interface/func-value calls): the call
-//	   depends on every operand of every Return of each callee.  Parameter i depends on argument i of
-//	   every call site (CHA) in expanded code, and on a neutral "called from <pkg>" leaf for call sites
-//	   in leaf packages; a free variable depends on the binding of every MakeClosure of its function.
-//	R3 call of a leaf (static callee outside the expanded packages, interface method with some
-//	   non-expanded implementation, func value, builtin): the call depends on the leaf node and on
-//	   all arguments including the receiver.
-//	R4 struct fields: FieldAddr/Field of field F of struct T depends on node T.F (and, R1, on its base);
-//	   T.F depends on every FieldAddr/Field instruction of (T,F) in expanded code, so anything
-//	   stored or written through any of them reaches every load of that field of any instance.
-//	R5 memory / aliasing ("write-back"), for every value v whose type can hold a reference (pointer,
-//	   slice, map, chan, interface, func, or struct/array/tuple containing one; strings are immutable
-//	   and excluded) and every instruction r using v (for globals: every use in expanded code):
-//	     Store *v = x            : v depends on x        Store *a = v : v depends on a (heap alias)
-//	     MapUpdate v[k] = x      : v depends on k, x     m[k] = v     : v depends on m ; Send likewise
-//	     r derives a reference-holding value from v (IndexAddr, Slice, load *v, Convert, ChangeType,
-//	       MakeInterface, TypeAssert, Phi, Extract, Index, Lookup, Range/Next, Select, ...): v depends on r
-//	       (FieldAddr/Field are excluded: fields are handled by R4)
-//	     v is an argument/receiver of a call: expanded callee -> v depends on the callee's parameter;
-//	       leaf callee -> v depends on the call node ("a []byte/pointer argument is defined by the
-//	       callee", e.g. rand.Read(b), io.ReadFull(r, b), x.SetBytes(b)), unless the leaf is listed in
-//	       leafContract as not written by that callee (documented standard-library contracts)
-//	     v is bound by MakeClosure  : v depends on the closure's free variable
-//	     v is returned              : v depends on the call node of every call site of the function
-//	R6 sinks: secret:nonce     <- T.Nonce    for every struct T of internal/mtproto/objects into whose
-//	          secret:new_nonce <- T.NewNonce    field the client code stores (server-only types are never stored)
-//	          secret:dh_b      <- exponent argument of every (*big.Int).Exp call and result 0 of every
-//	                              Return in internal/math.MakeGAB
-//	          secret:srp_a     <- parameter "random" of telegram/internal/srp.getInputCheckPassword
-//	   A missing anchor leaves the sink without dependencies, which fails secrets_ok (no OS source).
-//
-// Known limits (stated in the evidence): writes performed through package reflect or unsafe into
-// struct fields are not attributed to T.F (in this code base only the TL decoder does that, with
-// bytes read from the network connection); the call graph is CHA (over-approximate).
-// Output is deterministic: nodes sorted by key, ids = rank, dependency lists sorted.
+// Output is deterministic: nodes sorted by key, ids = rank, dependency lists sorted; FlowGraph.v is
+// rewritten only when its content changes.  flowgraph.json carries statistics and, per secret, the
+// shortest path from every non-neutral source (diagnostics for the check; Coq decides).
 package main
 
 import (
@@ -509,6 +484,21 @@ func (t *tr) prescan() {
 	}
 }
 
+// coqComment makes a label safe inside a Coq comment: Coq lexes string literals and nested comment
+// brackets inside comments, so quotes and everything outside a small ASCII set are replaced.
+func coqComment(s string) string {
+	var b strings.Builder
+	for _, r := range s {
+		switch {
+		case r >= 'a' && r <= 'z', r >= 'A' && r <= 'Z', r >= '0' && r <= '9', strings.ContainsRune(" _./:,#$&<>=+-[]()@*{}|%!;~^", r):
+			b.WriteRune(r)
+		default:
+			b.WriteByte('?')
+		}
+	}
+	return strings.ReplaceAll(strings.ReplaceAll(b.String(), "(*", "( *"), "*)", "* )")
+}
+
 func fatal(s string) {
 	fmt.Fprintln(os.Stderr, "flowgraph: "+s)
 	os.Exit(2)
@@ -638,12 +628,9 @@ func main() {
 			}
 		}
 	}
-	if f := t.findFunc(modPath + "/telegram/internal/srp.getInputCheckPassword"); f != nil {
-		for _, p := range f.Params {
-			if p.Name() == "random" {
-				anchor(sA, t.N(p, 'v'))
-				anchor(sA, t.N(p, 'm'))
-			}
+	for _, k := range fks { // the SRP public value A = g^a mod p that the client sends: a is combined into it
+		if k.typ == modPath+"/telegram/internal/srp.SrpAnswer" && t.fieldName[k] == "GA" {
+			anchor(sA, t.F(k, 'm'))
 		}
 	}
 	// Seed sites: every one is a node (and a dependency of the global source); the ones reachable
@@ -704,7 +691,7 @@ func main() {
 		if i == len(ns)-1 {
 			sep = ""
 		}
-		lab := strings.ReplaceAll(strings.ReplaceAll(n.label, "(*", "( *"), "*)", "* )")
+		lab := coqComment(n.label)
 		fmt.Fprintf(&b, "  (%d, (%s, %s))%s (* %s *)\n", n.id, kindName[n.kind], ids(d), sep, lab)
 	}
 	b.WriteString("].\n")
